@@ -362,6 +362,16 @@ pub fn generate(check: &str, tier: &str, seed: u64) -> Scenario {
                     ops.insert(at, Op::Merge);
                 }
             }
+            // now and then one value far beyond every internal buffer and size threshold (> 1 MiB)
+            if matches!(check, "C01" | "C02" | "C05" | "C12" | "C19") && cr.one_in(12) {
+                let sets: Vec<usize> = ops.iter().enumerate().filter(|(_, o)| matches!(o, Op::Set(..))).map(|(i, _)| i).collect();
+                if !sets.is_empty() {
+                    let at = *r.pick(&sets);
+                    if let Op::Set(_, v) = &mut ops[at] {
+                        v.len = *r.pick(&[1_048_577u32, 1_048_576 + 4096, 2 * 1_048_576 + 17, 3 * 1_048_576]);
+                    }
+                }
+            }
             // wall-clock jumps (forwards and backwards) between operations: nothing may depend on it
             if cr.one_in(4) {
                 let m = ops.len();
